@@ -83,6 +83,7 @@ let handle (f : string array) : string =
       | _ -> failwith "bad K cert" in
     let chain = List.mapi mk (split_on ';' f.(2)) in
     if checkChainForKeyUsage_model chain (zlist f.(3)) then "ok 1" else "ok 0"
+  | "P" | "Q" -> "SKIP"   (* C09 loaded signers / parsed parents: implementation-only cases judged by the check module's own EC and DER code *)
   | "Y" -> "SKIP"   (* C09 histories: an implementation-only case (verification at every point of a history of keys) *)
   | "T" ->
     (* C09: T id kind signer algo tseed mut -> ok <created> <verifies under the issuer> *)
